@@ -4,7 +4,7 @@ from vlib import common, coq, gobuild, gw, s3c, e2e, hooks
 from vlib.common import coq_list
 from props.c05 import body_of, write_headers, classify
 
-THEOREMS = ["C11_crash_leaves_old_or_new", "C11_acknowledged_writes_survive", "C11_recovery_is_possible"]
+THEOREMS = ["C11_crash_leaves_old_or_new", "C11_acknowledged_writes_survive", "C11_recovery_is_possible", "C11_versioned_delete_keeps_version", "C11_versioned_delete_frame", "C11_marker_first_order_refuted"]
 TARGETS = ["Properties/C11.vo", "Check/CrashCheck.vo"]
 CONFIGS = [("otmpfile+xattr", {"iam": False}), ("named-temp+xattr", {"iam": False, "otmp": False}), ("otmpfile+xattr+versioned", {"iam": False, "versioning": True}),
            ("otmpfile+sidecar", {"iam": False, "meta": "sidecar"}), ("named-temp+sidecar", {"iam": False, "otmp": False, "meta": "sidecar"}),
@@ -33,6 +33,8 @@ def run(chk):
     if built:
         coq.check_assumptions(chk, "Properties.C11", THEOREMS)
     mcases = []
+    vcases = []          # DeleteObject in a versioned bucket: (steps completed, key still reads the old data, the old version still shown)
+    VSTEP_OF = {"posix.objversion.stored": 1, "posix.deleteobject.marker.between": 2}
     nb = [0]
     for label, cfg in (CONFIGS[:4] if quick else CONFIGS):
         versioned = bool(cfg.get("versioning"))
@@ -123,6 +125,8 @@ def run(chk):
                         if gv0.status != 200 or gv0.body != body_of(old) or not listed0:
                             problems.append("after the restart the version %s written before the %s (acknowledged) is %s: GET by its id answers %d %s, ListObjectVersions lists %r" % (
                                 old_vid, opname, "gone" if gv0.status != 200 else "altered" if gv0.body != body_of(old) else "not listed", gv0.status, gv0.code, ids))
+                        if opname == "delete" and site_ in VSTEP_OF:
+                            row["vcase"] = (VSTEP_OF[site_], state == "old", gv0.status == 200 and gv0.body == body_of(old) and listed0)
                     if opname.startswith("multipart") and state != "new":
                         # the upload must still be completable
                         rc = R.req("POST", path, query={"uploadId": uid}, body=("<CompleteMultipartUpload><Part><PartNumber>1</PartNumber><ETag>%s</ETag></Part></CompleteMultipartUpload>" % petag).encode())
@@ -194,19 +198,65 @@ def run(chk):
                         # (with the sidecar store the attributes are files keyed by the object's name: one finding per operation, whatever the kill point)
                         chk.fail("c11:%s:sidecar:%s" % (kind, opname) if sidecar and kind == "state" else "c11:%s:%s:%s:%s" % (kind, opname, s_.split(".", 1)[1], label.split("+")[1] + ("+versioned" if versioned else "")),
                                  "[%s] %s killed at %s: %s" % (label, opname, s_, pr), row)
+                    if "vcase" in row:
+                        vcases.append((row["vcase"], row))
                     if "state" in row and s_ in STEP_OF and not versioned and cfg.get("meta") != "sidecar" and opname in ("put-new", "put-overwrite", "copy", "multipart-new", "multipart-overwrite", "delete"):
                         mcases.append(((0 if opname == "delete" else 1, not opname.endswith("-new"), STEP_OF[s_], {"old": 1, "new": 2, "missing": 0}.get(row["state"], 9)), row))
+            # ---- directory objects: PutObject of a key ending in "/" writes its attributes one by one onto the directory (no temporary
+            # file, no rename); killed after the n-th attribute write
+            if "sidecar" not in label or not quick:
+                for existing in (False, True):
+                    for n in range(1, 10):
+                        nb[0] += 1; bk = "cd%05d" % nb[0]; key = "dir/sub/"; path = "/%s/%s" % (bk, key)
+                        R = client(); chk.require(R.req("PUT", "/" + bk).status == 200, "c11:setup", "CreateBucket failed")
+                        old_md, new_md = {"write": "old", "only-old": "1", "both": "o"}, {"write": "new", "only-new": "2", "both": "n"}
+                        if existing:
+                            chk.require(R.req("PUT", path, body=b"", headers={"x-amz-meta-" + k_: v_ for k_, v_ in old_md.items()}).status == 200, "c11:setup", "initial PUT of the directory object failed")
+                        g.restart(); hk.clear(); hk.crash_at("posix.putobject.dirattr", n); R = client()
+                        r = R.req("PUT", path, body=b"", headers={"x-amz-meta-" + k_: v_ for k_, v_ in new_md.items()})
+                        if r.status == -1:
+                            try: g.proc.wait(timeout=3)
+                            except Exception: pass
+                        crashed = not g.alive(); hk.clear()
+                        opname = "dirobj-overwrite" if existing else "dirobj-new"
+                        chk.case((label, opname, n), crashed)
+                        if not crashed:
+                            R.req("DELETE", path); R.req("DELETE", "/" + bk); chk.count("%s:%s:not-on-path" % (label, opname)); break
+                        g.restart(); R = client()
+                        ls = R.req("GET", "/" + bk, query={"list-type": "2"})
+                        keys = sorted(x.findtext("Key") for x in ls.xml().findall("Contents")) if ls.status == 200 and ls.xml() is not None else None
+                        hd = R.req("HEAD", path); md = e2e.meta_of(hd.headers) if hd.status == 200 else None
+                        state = "missing" if keys == [] else "broken" if keys != [key] else "old" if md == old_md else "new" if md == new_md else "broken"
+                        row = {"config": label, "operation": opname, "killed_after_attribute_write": n, "request_answer": r.status, "listed": keys, "user_metadata_after_restart": md, "state": state}
+                        chk.traces += 1; chk.count("%s:%s:%s" % (label, opname, state))
+                        allowed = {"old", "new"} if existing else {"missing", "new"}
+                        if state not in allowed:
+                            chk.fail("c11:state:%s" % opname, "[%s] PutObject of the directory object %s killed after its attribute write no. %d: after the restart the key is listed as %r with user metadata %r; "
+                                     "the previous upload had %r, the killed one %r" % (label, key, n, keys, md, old_md if existing else None, new_md), row)
+                        rp_ = R.req("PUT", path, body=b"", headers={"x-amz-meta-later": "3"})
+                        h2 = R.req("HEAD", path)
+                        if rp_.status != 200 or e2e.meta_of(h2.headers) != {"later": "3"}:
+                            chk.fail("c11:recovery:%s:%s" % (opname, label.split("+")[1]), "[%s] after the restart a later PUT of the directory object answers %d and reads metadata %r" % (label, rp_.status, e2e.meta_of(h2.headers)), row)
+                        R.req("DELETE", path)
+                        db = R.req("DELETE", "/" + bk)
+                        if db.status != 204:
+                            chk.fail("c11:recovery:%s:%s" % (opname, label.split("+")[1]), "[%s] after the restart, the later PUT and DELETE of the key, DeleteBucket answers %d %s" % (label, db.status, db.code), row)
             chk.tie("gateway restarts after every kill (%s)" % label, g.alive(), g.log_tail())
     if built:
         text = ("From Coq Require Import List Arith Bool ZArith.\nFrom VGW Require Import Model.Crash Check.Common Check.CrashCheck.\nImport ListNotations.\n")
         text += "Definition cases : list (nat * bool * nat * Z) := " + coq_list(["(%d, %s, %d, %d%%Z)" % (k, "true" if ex else "false", st, z) for (k, ex, st, z), _ in mcases]) + ".\n"
         text += "Definition MS := Eval vm_compute in bad case_ok cases.\nPrint MS.\n"
+        text += "Definition vcases : list (nat * bool * bool) := " + coq_list(["(%d, %s, %s)" % (k, "true" if a else "false", "true" if b else "false") for (k, a, b), _ in vcases]) + ".\n"
+        text += "Definition VS := Eval vm_compute in bad vcase_ok vcases.\nPrint VS.\n"
         rc, out = coq.run_cases("C11_cases", text)
         ms = coq.printed_list(out, "MS")
         if rc != 0 or ms is None:
             chk.tie("case file evaluates", False, out[-2000:])
         else:
             chk.tie("T4 kill points: the state the real gateway comes back with = Model.Crash on the same step count (%d kills)" % len(mcases), not ms, [mcases[int(i)][1] for i in ms[:5]])
+            vs = coq.printed_list(out, "VS")
+            chk.tie("T4 kill points of a versioned DeleteObject: what the key reads and whether the hidden version is still shown = Model.CrashVersions (%d kills)" % len(vcases),
+                    vs is not None and not vs and len(vcases) >= 1, [vcases[int(i)][1] for i in (vs or [])[:5]] or "no kill reached")
 
 
 def replay(chk, data):
